@@ -1,6 +1,11 @@
 pub mod c15;
 pub mod c16;
+pub mod c17;
+pub mod c18;
+pub mod c20;
 pub mod c21;
+pub mod c22;
+pub mod c24;
 pub mod c29;
 
 use crate::common::{Ctx, Report};
@@ -8,7 +13,12 @@ pub fn dispatch(p: &str, ctx: &Ctx) -> Option<Report> {
     Some(match p {
         "C15" => c15::run(ctx),
         "C16" => c16::run(ctx),
+        "C17" => c17::run(ctx),
+        "C18" => c18::run(ctx),
+        "C20" => c20::run(ctx),
         "C21" => c21::run(ctx),
+        "C22" => c22::run(ctx),
+        "C24" => c24::run(ctx),
         "C29" => c29::run(ctx),
         _ => return None,
     })
